@@ -1,4 +1,4 @@
-import SupervisorModel.Lemmas.SupLemmas
+import SupervisorModel.Lemmas.SupInvPass
 /-
   C06 — the main loop survives anything its children, listeners or the kernel do.
 
@@ -118,5 +118,28 @@ example : (run cfgX { p := {} } [.transition 1024000 1 (.ok 7) .ok, .transition 
     .reap 1030300 0 false]).errs = 0 ∧
   (run cfgX { p := {} } [.transition 1024000 1 (.ok 7) .ok, .transition 1026000 1 (.ok 8) .ok, .rpcStop 1030200 1 .fail,
     .reap 1030300 0 false]).p.state = .unknown := by decide +kernel
+
+/-- **The daemon never dies of an AssertionError.**  From any configuration with distinct process
+    names, fresh process objects and non-negative `startsecs`, after any number of passes of
+    `runforever()` under any environments (any clock readings, any fork / signal-delivery / waitpid
+    answers — fork honouring the kernel's contract —, any signals, any RPCs including group
+    removal and re-addition), no `_assertInState` failure has escaped to the main loop: neither from
+    `transition()`, nor from `finish()` in `reap()`, nor from `stop_all`, nor (swallowed or not) from
+    an RPC. -/
+theorem daemon_never_asserts (procs dormant : List PE) (hn : ((procs ++ dormant).map (·.name)).Nodup)
+    (hp : ∀ e ∈ procs, e.p = {}) (hc : ∀ e ∈ procs ++ dormant, 0 ≤ e.cfg.startsecs) (envs : List Sup.Env) :
+    (passes envs { procs := procs, dormant := dormant }).err ≠ some .assertion :=
+  (passes_good envs _ (init_good procs dormant hn hp hc)).2
+
+/-- **No RPC raises an AssertionError either** (so the per-dispatcher guard of `rpcGuarded` has nothing
+    to swallow): on a state satisfying the daemon invariant, `rpcOne` ends without assertion. -/
+theorem rpc_never_asserts (r : Rpc) (s : Sup) (h : Good s) : (rpcOne r s).err ≠ some .assertion :=
+  (rpcOne_good r s h).2
+
+-- non-vacuity: a two-process configuration meets the hypotheses
+def peA : PE := { name := 0, gid := 0, gprio := 999, prio := 999, cfg := cfgX }
+def peB : PE := { name := 1, gid := 1, gprio := 999, prio := 1, cfg := cfgX }
+example : (List.map (fun (e : PE) => e.name) ([peA] ++ [peB])).Nodup ∧ (∀ e ∈ [peA], e.p = {}) ∧
+    (∀ e ∈ [peA] ++ [peB], 0 ≤ e.cfg.startsecs) := by decide
 
 end Sv.Props.C06
